@@ -92,15 +92,37 @@ func c01Clone(r *fw.Run, p *fw.Program) {
 			ru.Check(okF, sp.fn+":"+f, p.Rel(lit.Pos()), f+" = "+got.String(), "clone field "+f+" is "+got.String()+", expected "+w.String())
 		}
 	}
+	// a LimitReader clone must read from a clone of the wrapped reader (sharing it would let the clone consume the original's bits)
+	if fn := getFn(ru, p, "(*pkg/bitio.LimitReader).CloneReader"); fn != nil {
+		e := fw.NewSymEnv(fn)
+		ok := false
+		got := ""
+		for _, ret := range returnsOf(fn) {
+			if f, _, isLit := e.Fields(ret.Results[0]); isLit {
+				got = f["r"]
+				ok = got == "pkg/bitio.CloneReader(P0->r)#0"
+			}
+		}
+		ru.Check(ok, "(*pkg/bitio.LimitReader).CloneReader:r", p.Rel(fn.Pos()), "reads from CloneReader(r.r)", "the clone's wrapped reader is "+got+", must be the clone CloneReader(r.r) returned (a shared reader is advanced by both)")
+	}
 	// constructor-based clones: the constructor zeroes the cursor
-	for _, x := range []struct{ fn, ctor string }{
-		{"(*pkg/bitio.IOBitReadSeeker).CloneReaderAtSeeker", "NewIOBitReadSeeker"},
-		{"(*internal/bitiox.ZeroReadAtSeeker).CloneReadAtSeeker", "NewZeroAtSeeker"},
+	for _, x := range []struct{ fn, ctor, desc string }{
+		{"(*pkg/bitio.IOBitReadSeeker).CloneReaderAtSeeker", "NewIOBitReadSeeker", "pkg/bitio.NewIOBitReadSeeker(P0->rs)"},
+		{"(*internal/bitiox.ZeroReadAtSeeker).CloneReadAtSeeker", "NewZeroAtSeeker", "internal/bitiox.NewZeroAtSeeker(P0->nBits)"},
 	} {
 		fn := getFn(ru, p, x.fn)
 		if fn == nil {
 			continue
 		}
-		ru.Check(len(methodCalls(fn, x.ctor)) == 1, x.fn+":ctor", p.Rel(fn.Pos()), "clone built by "+x.ctor, "clone is not built by "+x.ctor+" (which starts at position 0)")
+		cs := methodCalls(fn, x.ctor)
+		ru.Check(len(cs) == 1, x.fn+":ctor", p.Rel(fn.Pos()), "clone built by "+x.ctor, "clone is not built by "+x.ctor+" (which starts at position 0)")
+		if len(cs) == 1 {
+			e := fw.NewSymEnv(fn)
+			okRet := false
+			for _, ret := range returnsOf(fn) {
+				okRet = e.Of(ret.Results[0]) == x.desc
+			}
+			ru.Check(okRet, x.fn+":same-source", p.Rel(cs[0].Pos()), x.desc, "the clone must be "+x.desc+" (same underlying data / length), got "+e.CallDesc(cs[0]))
+		}
 	}
 }
